@@ -7,7 +7,8 @@ import re
 from . import common as C
 from . import mux as M
 
-TRACE_CFG = lambda stepwise: C.cfg(spec='TraceSpec', constants={'Stepwise': stepwise})
+TRACE_CFG = lambda stepwise: C.cfg(spec='TraceSpec', constants={'Stepwise': stepwise,
+                                                                  'Deviations': C.Raw('{}')})
 
 
 def run_case(case, taps='all'):
@@ -70,6 +71,19 @@ def judge(V, cases, relevant, stats, family='', keep_traces=None):
         stats[k] = stats.get(k, 0) + st[k]
     stats['traces'] = stats.get('traces', 0) + len(traces)
     rejected = [i for i, v in enumerate(verdicts) if v[0] == 'REJECT']
+    # the implementation model (layer B) run by TLC on the same source events
+    for i, v in enumerate(verdicts):
+        if v[0] == 'ACCEPT' and len(v) > 2:
+            if v[2] is True:
+                stats['model_in_sync'] = stats.get('model_in_sync', 0) + 1
+            elif v[2] is False:
+                stats['model_out_of_sync'] = stats.get('model_out_of_sync', 0) + 1
+                stats.setdefault('model_out_of_sync_samples', [])
+                if len(stats['model_out_of_sync_samples']) < 3:
+                    stats['model_out_of_sync_samples'].append(
+                        {'pipeline': ' '.join(op_names(traces[i]['pipe'])), 'src': traces[i]['src'][:20]})
+            else:
+                stats['model_not_applicable'] = stats.get('model_not_applicable', 0) + 1
     steps = {}
     if rejected:
         # locate the first failing source step of the rejected traces
